@@ -41,6 +41,16 @@ theorem C02_tables_call (f : Str) (op : BinOp) :
       (Operator.fn f).precedence < (Operator.varRead f).precedence := by
   cases op <;> exact ⟨by simp [Operator.precedence, Operator.kind, OpKind.precedence, BinOp.toOperator], by simp [Operator.precedence, Operator.kind, OpKind.precedence, unaryPrec], by simp [Operator.precedence, Operator.kind, OpKind.precedence]⟩
 
+/-- function application binds tighter than every assignment operator too: in `f x op y` the
+assignment's left operand is the whole application (the AST of `C02_parse` has bare identifiers
+left of assignments; this is the remaining documented case, a finite table) -/
+theorem C02_call_left_of_assign (op : AssignOp) :
+    tokensToOperatorTree (callAssignTokens op) = .ok (callAssignTree op) := by
+  cases op <;> rfl
+
+theorem C02_call_left_of_assign_chain :
+    tokensToOperatorTree chainCallAssignTokens = .ok chainCallAssignTree := rfl
+
 /-- **C02 (main)**: the canonical rendering of any AST builds exactly the promised tree. -/
 theorem C02_parse (e : Expr) :
     tokensToOperatorTree (render e) = .ok ⟨.rootNode, [toTree e]⟩ :=
